@@ -753,6 +753,10 @@ HOLD = [("TypeResolveExport", "TR_devhold_pairs.cfg", "I-layer with DevPairsUnty
         ("TypeResolveExport", "TR_devhold_tblmacro.cfg", "I-layer with DevTableMacrosKept = P-layer with the table-macro deviation")]
 
 
+ACTIONS = ["ReplaceDefines", "SkipItem", "NextKind", "BeginLookup", "LookupExact", "LookupReversed", "PatternTry", "ApplyTerms", "EndBlock",
+           "Propagate", "NextBlock", "GenPair", "GenDone", "SelfTerm", "SelfDone", "Convert", "ConvertDone"]
+
+
 def run(tier):
     ck = c.Check(PROP, tier)
     ck.rule = ("S->I: every case of three families enumerated by TLC - dihedral grid (16 wildcard masks x entry forward/reversed x interaction "
@@ -776,15 +780,18 @@ def run(tier):
     sd = c.seed()
     ck.stage("TLC: I = P on the case families, exports, sensitivity runs (concurrently)")
     dih_cfg = "TR_dih_quick.cfg" if tier == "quick" else "TR_dih_full.cfg"
-    jobs = [("TypeResolveExport", dih_cfg, {"workers": max(2, c.NPROC // 2), "timeout": 3000}),
-            ("TypeResolveExport", "TR_plain.cfg", {"workers": 2}),
-            ("TypeResolveNBExport", "TR_nb.cfg", {"workers": 2})]
+    jobs = [("TypeResolveExport", dih_cfg, {"workers": max(2, c.NPROC // 2), "timeout": 3000, "coverage": True}),
+            ("TypeResolveExport", "TR_plain.cfg", {"workers": 2, "coverage": True}),
+            ("TypeResolveNBExport", "TR_nb.cfg", {"workers": 2, "coverage": True})]
     jobs += [(m, cfg, {"workers": 1, "check": False}) for m, cfg, _, _ in SENS]
     jobs += [(m, cfg, {"workers": 1}) for m, cfg, _ in HOLD]
     res = c.tlc_many(jobs)
     dih, plain, nbx = res[:3]
     for r, what in zip(res[:3], ("dihedral family", "plain/macro families", "non-bonded family")):
         ck.model_must_hold(r, "I = P (%s)" % what)
+    idle = [a for a in ACTIONS if not ck.actions.get(a)]
+    if idle:
+        raise c.MachineryError("I-layer actions never taken in the exhaustive instance (vacuous): %s" % idle)
     for r, (_, _, inv, what) in zip(res[3:3 + len(SENS)], SENS):
         ck.model_must_refute(r, inv, what)
     for r, (_, _, what) in zip(res[3 + len(SENS):], HOLD):
@@ -809,9 +816,9 @@ def run(tier):
     replay_cases(ck, cases_p, "plain")
     replay_cases(ck, cases_n, "nb")
     ck.stage("I->S: record seeded random topologies and repository topologies")
-    nrec = 240 if tier == "quick" else 1500
+    nrec = 240 if tier == "quick" else 3000
     recs = record_random(nrec, sd)
-    big = record_random(40 if tier == "quick" else 300, sd + 1, big=True)
+    big = record_random(40 if tier == "quick" else 500, sd + 1, big=True)
     repo = record_repo(ck)
     ck.extra["records"] = {"random": len(recs), "random_large": len(big), "repository": len(repo)}
     ex = [r for r in recs if "exception" not in r]
